@@ -30,6 +30,7 @@ PROPS = {
         "runs": [
             {"engine": "query", "args": [], "n_quick": 6000, "n_thorough": 400000},
             {"engine": "reply", "args": ["-mode", "seq"], "n_quick": 1200, "n_thorough": 40000, "netns": True},
+            {"engine": "reply", "args": ["-mode", "storm"], "n_quick": 12, "n_thorough": 400, "netns": True},
         ],
         "trivial_tags": [],
         "rule": "structured generator (valid header; 0-3 questions; records in all sections; OPT anywhere with 0-6 options incl. ECS/MAC; "
